@@ -91,7 +91,8 @@ namespace Rdpgw.Oracle
 
 open Rdpgw Rdpgw.Http in
 /-- `route openid= kerberos= basic= ntlm= cred=none|other|basic:<u>:<p>|ntlm:<hex>|negotiate:<hex>
-    hasntlm= hasneg= hasbasic= basicok= ntlmres=err|reject|challenge|ok:<hex> spnego=none|<hex>` -/
+    hasntlm= hasneg= hasbasic= basicok= ntlmres=err|reject|challenge|ok:<hex> spnego=none|<hex>`,
+    or with `auths=<hex>,… users=<hex>:<hex>,…` in place of `cred= has…= basicok=` -/
 def cmdRoute (m : List (String × String)) : String :=
   let mech : Mechs := ⟨getBool m "openid", getBool m "kerberos", getBool m "basic", getBool m "ntlm"⟩
   let cred : Cred :=
@@ -110,7 +111,20 @@ def cmdRoute (m : List (String × String)) : String :=
         else some none,
       ntlmChallenge := fun _ => ntlmres = "challenge",
       spnego := fun _ => if get m "spnego" = "none" ∨ get m "spnego" = "" then none else some (getHex m "spnego") }
-  let r : Req := ⟨cred, getBool m "hasntlm", getBool m "hasneg", getBool m "hasbasic"⟩
+  -- `auths=<hex>,<hex>,…` (the header's values in order; `_` = header absent): the model parses them itself;
+  -- `users=<hex user>:<hex password>,…` is then the backend's table (an empty password never matches)
+  let users : List (Bytes × Bytes) := (splitList (get m "users") ',').filterMap (fun e =>
+    match e.splitOn ":" with
+    | [u, p] => some ((unhex u).getD [], (unhex p).getD [])
+    | _ => none)
+  let byOctets := (m.find? (fun p => p.1 = "auths")).isSome
+  let b : Backend := if byOctets then
+      { b with basicOk := fun u p => match users.find? (fun e => e.1 == u) with
+                                     | some e => !e.2.isEmpty && e.2 == p
+                                     | none => false }
+    else b
+  let r : Req := if byOctets then classify (getHexList m "auths")
+    else ⟨cred, getBool m "hasntlm", getBool m "hasneg", getBool m "hasbasic"⟩
   let chs (c : Challenge) : String := match c with | .ntlm => "NTLM" | .negotiate => "Negotiate" | .basic => "Basic"
   match route mech b r with
   | .handler none => "handler:none"
